@@ -150,4 +150,34 @@ theorem TreeOK.load {o : Ops R G} (L : Lawful o) {ls : Nat} (heven : ls % 2 = 0)
     rw [s'.holds.leaves, ← s.holds.leaves]
     exact d q
 
+/-- inserting a list of (reference, clock) pairs one by one: invariant, leaf size, and every page-filtered sum of the
+    leaves is the fold of the matching references -/
+theorem insert_fold {o : Ops R G} (L : Lawful o) (ls : Nat) : ∀ (l l0 : List (R × Nat)) (t0 : Tree G), TInv o t0 →
+    t0.leafSize = ls → Digest o ls l0 t0 →
+    TInv o (l.foldl (fun t rc => t.insert o rc.1 rc.2) t0) ∧
+    (l.foldl (fun t rc => t.insert o rc.1 rc.2) t0).leafSize = ls ∧
+    Digest o ls (l0 ++ l) (l.foldl (fun t rc => t.insert o rc.1 rc.2) t0) := by
+  intro l
+  induction l with
+  | nil => intro l0 t0 i e h; simpa using ⟨i, e, h⟩
+  | cons rc l ih =>
+    intro l0 t0 i e h
+    have s := insert_spec L t0 i rc.1 rc.2
+    have := ih (l0 ++ [rc]) (t0.insert o rc.1 rc.2) s.1 (by rw [s.2.1, e]) (by
+      intro q
+      have := s.2.2 q
+      rw [e] at this
+      rw [this, h q, List.filter_append]
+      by_cases hq : q (rc.2 / ls) = true
+      · simp [hq, specAll_snoc]
+      · simp [hq])
+    simpa [List.append_assoc] using this
+
+theorem insert_fold_new {o : Ops R G} (L : Lawful o) {ls : Nat} (hls : 0 < ls) (l : List (R × Nat)) :
+    TInv o (l.foldl (fun t rc => t.insert o rc.1 rc.2) (Tree.new o ls)) ∧
+    (l.foldl (fun t rc => t.insert o rc.1 rc.2) (Tree.new o ls)).leafSize = ls ∧
+    Digest o ls l (l.foldl (fun t rc => t.insert o rc.1 rc.2) (Tree.new o ls)) := by
+  have := insert_fold L ls l [] (Tree.new o ls) (TInv.new o hls) rfl (Digest.new L ls)
+  simpa using this
+
 end Nuts.C08
